@@ -7,7 +7,8 @@ from checks.decoder_common import run_property
 
 def jobs(tier):
     m = ("strict", "warn")
-    return D.g_leaf(m, deep=2) + D.g_region(m, tier) + D.g_structs(m) + D.g_arrays(m) + D.g_frames(m) + D.g_dispatch(m) + conformance.jobs(tier, SEED[0])
+    # the pump runs below both modes: whatever the processor emits (warnings included) must come out, whichever mode
+    return D.g_pump(m) + D.g_leaf(m, deep=2) + D.g_region(m, tier) + D.g_structs(m) + D.g_arrays(m) + D.g_frames(m) + D.g_dispatch(m) + conformance.jobs(tier, SEED[0])
 
 
 def keep(name, ob):
